@@ -13,6 +13,7 @@ ROUTER_ASSUMPTIONS = COMMON_ASSUMPTIONS + [
 
 PROPS = {
     "C01": {
+        "wall_cap_s": {"thorough": 3000},
         "level": "model_checking",
         "technique": "explicit enumeration of all configurations (route sets x method sets x declaration shapes x registration orders) and all requests of a collision-forcing alphabet, each dispatched on the real router and compared with a reference matcher and across registration orders",
         "engine": "vmc",
